@@ -315,7 +315,7 @@ Definition nackfrag_cost (v : version) (s : state) (w sn : Z) : out unit :=
       | Some ab =>
           let miss := zlen (filter negb (F.ab_bitmap ab)) in
           _ <- tick (F.ab_count ab) ;;
-          _ <- alloc (ENTRY * (if v_nackfrag_window v then Z.min miss 256 else miss)) ;;
+          _ <- alloc (WORD * (if v_nackfrag_window v then Z.min miss 256 else miss)) ;;
           alloc MSG
       | None => ret tt
       end
